@@ -10,7 +10,7 @@ RULE = ("sessions = a table of screen programs (stack operations, signals, raise
 
 MANIFEST = dict(
     text="Partial. Proof (Coq, closed under the global context), for every table of screens, every typed-line sequence, every fuel and every list of top-level actions: while a modal entry (or what replaced it) is on the stack no entry strictly beneath it is set up, refreshed or drawn, and every modal return matches a frame opened by exactly that push (C05_modal_shield_partial); the entries beneath an open modal frame are the same list at every stack primitive (C05_beneath_untouched, C05_only_stack_primitives_move); the caller's remaining commands resume from the state the nested loop left (C05_caller_resumes); a modal push returns only after its entry was closed, under the trace hypothesis excluding finding F13 (C05_returns_only_after_close_partial, C05_hypothesis_meaning); no screen all of whose entries lie beneath an open modal screen gets input, under three trace conditions — every prompt is issued for the top entry's screen, no entry of a screen is popped while a request of that screen is unanswered, no modal screen is pushed while a request is unanswered (C05_input_shield_partial; C05_full_partial: the whole strict acceptor under these and no_f13). Refuted on the faithful model and reproduced event for event on the implementation: the strict return clause (C05_strict_refuted, F13) and the unconditional input clause (C05_input_beneath_modal_refuted: six sessions, each violating exactly one of the three conditions — findings F16/1-6); C05_conditions_independent, C05_conditions_satisfiable. The theorems cover signals sourced at a shielded screen (a dialog calling parent.redraw()/close()). The full acceptor chk_C05 is run on every implementation trace; the F13/F16 fingerprints are known findings.",
-    note="Trusted: Coq kernel, extraction, harness (screen_worker.py records events through subclasses / name patching and releases typed lines when the loop is idle). " + 'findings F13 (modal-push-after-close-in-same-callback) and F16 (input-beneath-modal:* — six mechanisms with one root cause: ready signals are routed by source registration, not by stack position) are listed in known_findings.json.',
+    note="setup() callbacks run commands of their own in the model: C05_input_shield_partial and C05_beneath_untouched hold for them under setup_cmds_ok (a setup() with commands reports success), C05_modal_shield_setup_cmds_partial for the acceptor relaxed at the return of such a setup(); the other C05 theorems carry plain_setup; C05_failing_setup_with_commands_refuted is finding F19 seen from C05. Trusted: Coq kernel, extraction, harness (screen_worker.py records events through subclasses / name patching and releases typed lines when the loop is idle). " + 'findings F13 (modal-push-after-close-in-same-callback) and F16 (input-beneath-modal:* — six mechanisms with one root cause: ready signals are routed by source registration, not by stack position) are listed in known_findings.json.',
     technique="Coq theorem: a trace acceptor holds for every application session of an interpreter model of the screen layer over the MainLoop model; the same extracted acceptor judges traces of the real implementation; differential correspondence model<->/repo")
 
 
